@@ -201,6 +201,7 @@ def write_if_changed(path, content):
     return True
 
 
+COQC_TIMEOUT = int(os.environ.get("VERIF_COQC_TIMEOUT", "1500"))
 COQ_DIRS = ["Base", "Spec", "Model", "Gen", "Proofs", "Properties", "Extract"]
 
 
@@ -233,7 +234,8 @@ def coq_make(targets, timeout=1800):
     with Lock("coq"):
         coq_makefile()
         try:
-            rc, out = sh(["timeout", str(timeout), "make", "-k", "-j%d" % NCPU] + list(targets),
+            # every coqc under its own timeout: a looping proof is a broken obligation, not a hang
+            rc, out = sh(["timeout", str(timeout), "make", "-k", "-j%d" % NCPU, "COQC=timeout %d coqc" % COQC_TIMEOUT] + list(targets),
                          cwd=COQ, check=False, timeout=timeout + 30)
         except subprocess.TimeoutExpired:
             return False, "coq make timed out"
